@@ -9,6 +9,9 @@ def dispatch_replay(chk, rp):
         return RG.replay_file(chk, rp)
     if kind == "curves":
         return CU.replay_file(chk, rp)
+    if rp.get("kind") == "testtrace":
+        from . import testtrace as TT
+        return TT.replay_file(chk, rp)
     if kind == "prov":
         from . import prov_checks as PV
         return PV.replay_file(chk, rp)
